@@ -533,13 +533,17 @@ def jsonNameOf (f : GoField) : Option Name :=
     | .key k => some k
     | .none => some f.name
 
-/-- encoding/json's field lookup: exact name first, else the first case-insensitive match. -/
-def targetIdx (fs : List GoField) (key : Name) : Option Nat :=
-  match fs.findIdx? (fun f => jsonNameOf f == some key) with
-  | some i => some i
-  | none => fs.findIdx? (fun f => match jsonNameOf f with
-                                  | some n => equalFold n key
-                                  | none => false)
+/-- encoding/json's field lookup for an object key: the field whose JSON name is exactly the key,
+    else the first field whose JSON name equals it ignoring case. Returns the Go field name. -/
+def targetName (fs : List GoField) (key : Name) : Option Name :=
+  match fs.find? (fun f => jsonNameOf f == some key) with
+  | some f => some f.name
+  | none =>
+    match fs.find? (fun f => match jsonNameOf f with
+                             | some n => equalFold n key
+                             | none => false) with
+    | some f => some f.name
+    | none => none
 
 def mapOpt {α β : Type} (f : α → Option β) : List α → Option (List β)
   | [] => some []
@@ -548,17 +552,25 @@ def mapOpt {α β : Type} (f : α → Option β) : List α → Option (List β)
     | some y, some ys => some (y :: ys)
     | _, _ => none
 
-/-- Object members into struct fields, in order of the members. -/
-def decodeMembersWith (dec : GoTy → Json → Option GoVal) (fs : List GoField) :
-    List JMember → List GoVal → Option (List GoVal)
-  | [], cur => some cur
-  | m :: ms, cur =>
-    match targetIdx fs m.key with
-    | none => decodeMembersWith dec fs ms cur         -- unknown key: skipped
-    | some i =>
-      match dec (fs.getD i default).ty m.val with
-      | none => none
-      | some v => decodeMembersWith dec fs ms (cur.set i v)
+/-- The value of the last object member that is addressed to the field named `name`. -/
+def lastFor (fs : List GoField) (name : Name) : List JMember → Option Json
+  | [] => none
+  | m :: ms =>
+    match lastFor fs name ms with
+    | some v => some v
+    | none => if targetName fs m.key == some name then some m.val else none
+
+/-- One struct field from the object members: a field no member addresses keeps its zero value,
+    otherwise it is decoded from the (last) member addressed to it. (Go decodes member by member; the
+    two agree whenever no two members address the same field — the envelope.) -/
+def decodeFieldWith (dec : GoTy → Json → Option GoVal) (zero : GoTy → GoVal) (all : List GoField)
+    (kvs : List JMember) (f : GoField) : Option GoValField :=
+  match lastFor all f.name kvs with
+  | none => some (.mk f.name f.tag (zero f.ty))
+  | some j =>
+    match dec f.ty j with
+    | some v => some (.mk f.name f.tag v)
+    | none => none
 
 def hasDupNames (fs : List GoField) : Bool :=
   match fs with
@@ -570,47 +582,52 @@ def decodeStructWith (dec : GoTy → Json → Option GoVal) (zero : GoTy → GoV
     Option (List GoValField) :=
   if hasDupNames fs then none       -- duplicate field: does not compile
   else
-    let mk (vals : List GoVal) : List GoValField :=
-      (fs.zip vals).map fun p => GoValField.mk p.1.name p.1.tag p.2
     match j with
-    | .null => some (mk (fs.map fun f => zero f.ty))
-    | .obj kvs =>
-      match decodeMembersWith dec fs kvs (fs.map fun f => zero f.ty) with
-      | some vals => some (mk vals)
-      | none => none
+    | .null => some (fs.map fun f => .mk f.name f.tag (zero f.ty))
+    | .obj kvs => mapOpt (decodeFieldWith dec zero fs kvs) fs
     | _ => none
 
-def fieldIdx (fs : List GoField) (name : Name) : Option Nat := fs.findIdx? (fun f => f.name == name)
+def fieldTy (fs : List GoField) (name : Name) : Option GoTy :=
+  (fs.find? (fun f => f.name == name)).map (·.ty)
 
-/-- The statements after `*s = base` (main.go:197-226). `base` is the decoded base struct. -/
-def runActionsWith (dec : GoTy → Json → Option GoVal) (fs : List GoField) (b : Json) (base : List GoValField) :
-    List Action → List GoValField → Option (List GoValField)
-  | [], cur => some cur
-  | act :: rest, cur =>
-    let fname := match act with
-      | .uncond f => f
-      | .switch _ _ f => f
-    match fieldIdx fs fname with
-    | none => none                                   -- `s.F` undefined: does not compile
-    | some i =>
-      let f := fs.getD i default
-      let fire : Option Bool :=
-        match act with
-        | .uncond _ => some true
-        | .switch tn oks _ =>
-          match fieldIdx fs tn with
-          | none => none                             -- `base.TN` undefined: does not compile
-          | some ti =>
-            match (base.getD ti (.mk [] .none .nil)).val with
-            | .str s => some (oks.contains s)
-            | _ => none                              -- switch on a non-string against string cases
-      match fire with
+def Action.field : Action → Name
+  | .uncond f => f
+  | .switch _ _ f => f
+
+/-- The static checks the compiler makes on one generated statement: `s.F` must exist; the switch
+    tag `base.TN` must exist and be a string (its cases are string constants). -/
+def actionCompiles (fs : List GoField) : Action → Bool
+  | .uncond f => (fieldTy fs f).isSome
+  | .switch tn _ f =>
+    (fieldTy fs f).isSome &&
+    (match fieldTy fs tn with
+     | some .string => true
+     | _ => false)
+
+def baseStr (base : List GoValField) (name : Name) : Option Name :=
+  match base.find? (fun f => f.name == name) with
+  | some (.mk _ _ (.str s)) => some s
+  | _ => none
+
+/-- Does the statement decode into its field, given the decoded base struct? -/
+def actionFires (base : List GoValField) : Action → Bool
+  | .uncond _ => true
+  | .switch tn oks _ =>
+    match baseStr base tn with
+    | some s => oks.contains s
+    | none => false
+
+/-- The statements after `*s = base` (main.go:197-226), field by field: a field some firing statement
+    names is decoded from the whole object `b`, every other field keeps its base value. -/
+def applyActionsWith (dec : GoTy → Json → Option GoVal) (fs : List GoField) (b : Json)
+    (base : List GoValField) (acts : List Action) : Option (List GoValField) :=
+  if !acts.all (actionCompiles fs) then none
+  else mapOpt (fun (bf : GoValField) =>
+    if acts.any (fun a => a.field == bf.name && actionFires base a) then
+      match fieldTy fs bf.name with
+      | some t => (dec t b).map (GoValField.mk bf.name bf.tag)
       | none => none
-      | some false => runActionsWith dec fs b base rest cur
-      | some true =>
-        match dec f.ty b with
-        | none => none
-        | some v => runActionsWith dec fs b base rest (cur.set i (.mk f.name f.tag v))
+    else some bf) base
 
 def lookupDecl (env : List Decl) (n : Name) : Option Decl :=
   env.find? fun
@@ -624,11 +641,15 @@ def underOf (env : List Decl) (n : Name) : Option GoTy :=
   | some (.typedef _ t _) => some t
   | none => none
 
+/-- Nesting bound for zero values of non-pointer struct fields (independent of the decoding fuel, so
+    that decoding is monotone in its fuel). Zero values of pointers and slices are `nil` at any bound. -/
+def zeroFuel : Nat := 64
+
 /-- `json.Unmarshal(j, &x)` with `x : ty` starting from the zero value. -/
 def decode (env : List Decl) : Nat → GoTy → Json → Option GoVal
   | 0, _, _ => none
   | fuel + 1, ty, j =>
-    let zero := zeroWith (underOf env) (fuel + 1)
+    let zero := zeroWith (underOf env) zeroFuel
     match ty with
     | .ptr t => if j.isNull then some .nil else (decode env fuel t j).map .ptr
     | .slice t =>
@@ -671,6 +692,6 @@ def decode (env : List Decl) : Nat → GoTy → Json → Option GoVal
         -- the generated UnmarshalJSON (main.go:180-228)
         match decodeStructWith (decode env fuel) zero fs j with
         | none => none
-        | some base => (runActionsWith (decode env fuel) fs j base acts base).map .struct
+        | some base => (applyActionsWith (decode env fuel) fs j base acts).map .struct
 
 end ApiFu.C20
